@@ -220,7 +220,7 @@ theorem execTask_linkOK {cfg : Cfg} (hdry : cfg.dryRun = false) (flt : Faults) {
         | dir => exact keep _ (by rw [he]; exact (performCU_dir hpl hp').2) hnode
         | symlink text => exact keep _ (by rw [he]; exact (performCU_symlink hpl hp').2) hnode
         | file m n =>
-          rcases performCU_file hpl hp' with ⟨node, hget, hmat, _, hl | ⟨⟨i, hl⟩, hn, _, _⟩⟩ | ⟨x, fm, _, _, _, _, _, _, _, hl, _⟩
+          rcases performCU_file hpl hp' with ⟨node, hget, hmat, _, ⟨hl, _⟩ | ⟨⟨i, hl⟩, hn, _, _⟩⟩ | ⟨x, fm, _, _, _, _, _, _, _, hl, _⟩
           · exact keep _ (by rw [he]; exact hl) hnode
           · rw [he]
             intro x hx
@@ -255,7 +255,8 @@ structure LocalPost (cfg : Cfg) (before : Option DNode) (t : Task) (after : Opti
   dir_pre : t.act ≠ .skip → t.payload = .dir → t.rel ≠ [] → before = none ∨ before = some .dir
   symlink : t.act ≠ .skip → ∀ text, t.payload = .symlink text → after = some (.symlink text)
   file : t.act ≠ .skip → ∀ m n, t.payload = .file m n →
-    ∃ d, after = some (.file d) ∧ Matches cfg d m ∧ (∀ o, before = some (.file o) → d.ino = o.ino)
+    ∃ d, after = some (.file d) ∧ Matches cfg d m ∧
+      (cfg.hardlinks = false → ∀ o, before = some (.file o) → d.ino = o.ino)
 
 theorem execTask_post {cfg : Cfg} (hdry : cfg.dryRun = false) (flt : Faults) {S : List Task}
     (hino : cfg.hardlinks = true → InoConsistentT S) {st : Exec} {t : Task} {rest : List Task}
@@ -275,14 +276,14 @@ theorem execTask_post {cfg : Cfg} (hdry : cfg.dryRun = false) (flt : Faults) {S 
     · exact (performCU_dir hpl hp).1 hne
     · exact performCU_dir_pre hpl hp hne
     · exact (performCU_symlink hpl hp).1
-    · rcases performCU_file hpl hp with ⟨node, hget, hmat, hi, _⟩ | ⟨x, fm, hhl, hn, _, hx, hxi, hfirst, hget, _, _, hnone⟩
-      · exact ⟨node, hget, hmat, hi⟩
+    · rcases performCU_file hpl hp with ⟨node, hget, hmat, hi, _⟩ | ⟨x, fm, hhl, hn, _, hx, hxi, hfirst, hget, _, _⟩
+      · exact ⟨node, hget, hmat, fun _ => hi⟩
       · obtain ⟨⟨m', n', d, ⟨t', ht', hpl', hn'⟩, hi', hd, hmat⟩, _⟩ := hlink x hx
         rw [hfirst] at hd
         simp only [Option.some.injEq, DNode.file.injEq] at hd
         subst hd
         have hsd : SameData m m' := hino hhl t ht t' ht' m n m' n' hpl hpl' hn hn' (hxi.symm.trans hi'.symm)
-        exact ⟨fm, hget, hmat.of_sameData hsd, fun o ho => by rw [hnone] at ho; cases ho⟩
+        exact ⟨fm, hget, hmat.of_sameData hsd, fun h => by rw [hhl] at h; cases h⟩
 
 /-- what a completed task of a fold establishes at its own path in the *final* state, relative
     to the *initial* destination -/
@@ -296,7 +297,8 @@ structure TaskPost (cfg : Cfg) (dst0 : Map DNode) (ts : List Task) (t : Task) (a
     dst0.get? t.rel = none ∨ dst0.get? t.rel = some .dir
   symlink : t.act ≠ .skip → ∀ text, t.payload = .symlink text → after = some (.symlink text)
   file : t.act ≠ .skip → ∀ m n, t.payload = .file m n →
-    ∃ d, after = some (.file d) ∧ Matches cfg d m ∧ (∀ o, dst0.get? t.rel = some (.file o) → d.ino = o.ino)
+    ∃ d, after = some (.file d) ∧ Matches cfg d m ∧
+      (cfg.hardlinks = false → ∀ o, dst0.get? t.rel = some (.file o) → d.ino = o.ino)
 
 theorem foldl_task_post {cfg : Cfg} (hdry : cfg.dryRun = false) (flt : Faults) {ts pre post : List Task}
     {t : Task} (hts : ts = pre ++ t :: post) (hpw : ts.Pairwise Later)
@@ -353,10 +355,133 @@ theorem foldl_task_post {cfg : Cfg} (hdry : cfg.dryRun = false) (flt : Faults) {
     · rw [← h1]; exact hb
     · exact Or.inl a1
   · obtain ⟨d, hd, hm, hi⟩ := lp.file hs m n hpl
-    refine ⟨d, keep _ hd, hm, fun o ho => hi o ?_⟩
+    refine ⟨d, keep _ hd, hm, fun hh o ho => hi hh o ?_⟩
     rcases f1 with h1 | ⟨a1, _⟩
     · rw [h1]; exact ho
     · rw [ho] at a1; cases a1
+
+/-! ### members of one link group share one node (`-H`) -/
+
+/-- the link map only grows, by entries for inodes that were not registered yet -/
+theorem execTask_linkMap (cfg : Cfg) (flt : Faults) (st : Exec) (t : Task) :
+    (execTask cfg flt st t).w.linkMap = st.w.linkMap ∨
+    ∃ y, (execTask cfg flt st t).w.linkMap = y :: st.w.linkMap ∧ st.w.linkMap.find? (·.1 == y.1) = none := by
+  rcases execTask_cases cfg flt st t with ⟨g, _, _, _, he⟩ | ⟨_, w', hp, he⟩ | ⟨_, _, he⟩
+  · rw [he]; exact Or.inl rfl
+  · rw [he]
+    by_cases hdry : cfg.dryRun = true
+    · rw [perform_dry cfg hdry] at hp; cases hp; exact Or.inl rfl
+    · simp only [Bool.not_eq_true] at hdry
+      by_cases hs : t.act = .skip
+      · rw [perform_skip hs] at hp; cases hp; exact Or.inl rfl
+      · by_cases hd : t.act = .delete
+        · exact Or.inl (perform_delete_spec hd hdry hp).1
+        · rw [perform_cu hs hd hdry] at hp
+          cases hpl : t.payload with
+          | nothing => rw [performCU_nothing hpl hp]; exact Or.inl rfl
+          | dir => exact Or.inl (performCU_dir hpl hp).2
+          | symlink text => exact Or.inl (performCU_symlink hpl hp).2
+          | file m n =>
+            rcases performCU_file hpl hp with ⟨_, _, _, _, ⟨hl, _⟩ | ⟨⟨i, hl⟩, _, _, hf⟩⟩ | ⟨_, _, _, _, _, _, _, _, _, hl, _⟩
+            · exact Or.inl hl
+            · exact Or.inr ⟨_, hl, hf⟩
+            · exact Or.inl hl
+  · rw [he]; exact Or.inl rfl
+
+theorem execTask_find_stable (cfg : Cfg) (flt : Faults) (st : Exec) (t : Task) (i : Nat) (x : Nat × Path × Nat)
+    (h : st.w.linkMap.find? (·.1 == i) = some x) :
+    (execTask cfg flt st t).w.linkMap.find? (·.1 == i) = some x := by
+  rcases execTask_linkMap cfg flt st t with hl | ⟨y, hl, hy⟩
+  · rw [hl]; exact h
+  · rw [hl, List.find?_cons]
+    have hne : (y.1 == i) = false := by
+      cases hyi : (y.1 == i) with
+      | false => rfl
+      | true =>
+        have : y.1 = i := by simpa using hyi
+        rw [this, h] at hy; cases hy
+    rw [hne]; exact h
+
+/-- a shared node pair (`p` and the registered first path `x.2.1` of inode `i`) survives tasks
+    that own neither path -/
+theorem foldl_share (cfg : Cfg) (flt : Faults) (ts : List Task) (st : Exec) (p : Path) (i : Nat)
+    (x : Nat × Path × Nat) (hf : st.w.linkMap.find? (·.1 == i) = some x)
+    (heq : st.w.dst.get? p = st.w.dst.get? x.2.1) (hp : st.w.dst.get? p ≠ none)
+    (hts : ∀ t ∈ ts, (t.rel ≠ p ∧ (t.act = .delete → isPrefix t.rel p = false)) ∧
+      (t.rel ≠ x.2.1 ∧ (t.act = .delete → isPrefix t.rel x.2.1 = false))) :
+    (ts.foldl (execTask cfg flt) st).w.linkMap.find? (·.1 == i) = some x ∧
+    (ts.foldl (execTask cfg flt) st).w.dst.get? p = (ts.foldl (execTask cfg flt) st).w.dst.get? x.2.1 := by
+  induction ts generalizing st with
+  | nil => exact ⟨hf, heq⟩
+  | cons t ts ih =>
+    rw [List.foldl_cons]
+    obtain ⟨⟨a1, a2⟩, ⟨b1, b2⟩⟩ := hts t (List.mem_cons_self ..)
+    have e1 : (execTask cfg flt st t).w.dst.get? p = st.w.dst.get? p := by
+      rcases execTask_frame cfg flt st t p a1 a2 with h | ⟨h, _⟩
+      · exact h
+      · exact absurd h hp
+    have e2 : (execTask cfg flt st t).w.dst.get? x.2.1 = st.w.dst.get? x.2.1 := by
+      rcases execTask_frame cfg flt st t x.2.1 b1 b2 with h | ⟨h, _⟩
+      · exact h
+      · rw [← heq] at h; exact absurd h hp
+    exact ih _ (execTask_find_stable cfg flt st t i x hf) (by rw [e1, e2]; exact heq) (by rw [e1]; exact hp)
+      (fun t' ht' => hts t' (List.mem_cons_of_mem _ ht'))
+
+/-- a completed `-H` group member ends up as a name of the registered first path of its inode -/
+theorem foldl_task_share {cfg : Cfg} (hdry : cfg.dryRun = false) (flt : Faults) {ts pre post : List Task}
+    {t : Task} (hts : ts = pre ++ t :: post) (hpw : ts.Pairwise Later) (st0 : Exec)
+    (hl0 : st0.w.linkMap = []) (hnd : t.act ≠ .delete) (hs : t.act ≠ .skip) {m : FileMeta} {n : Nat}
+    (hpl : t.payload = .file m n) (hhl : cfg.hardlinks = true) (hn : 1 < n)
+    (hok : (execTask cfg flt (pre.foldl (execTask cfg flt) st0) t).b.errors
+            = (pre.foldl (execTask cfg flt) st0).b.errors) :
+    ∃ x, (ts.foldl (execTask cfg flt) st0).w.linkMap.find? (·.1 == m.ino) = some x ∧
+      (ts.foldl (execTask cfg flt) st0).w.dst.get? t.rel = (ts.foldl (execTask cfg flt) st0).w.dst.get? x.2.1 := by
+  have hmem : t ∈ ts := by rw [hts]; simp
+  have hpw' := hpw
+  rw [hts, List.pairwise_append] at hpw'
+  obtain ⟨_, hpwt, _⟩ := hpw'
+  rw [List.pairwise_cons] at hpwt
+  have hpost : ∀ b ∈ post, b.rel ≠ t.rel ∧ (b.act = .delete → isPrefix b.rel t.rel = false) :=
+    fun b hb => (hpwt.1 b hb).1 hnd
+  have hl1 : LinkOK cfg ts (pre.foldl (execTask cfg flt) st0).w (t :: post) := by
+    apply foldl_linkOK hdry flt pre (t :: post) st0
+    · intro a ha; rw [hts]; exact List.mem_append_left _ ha
+    · rw [← hts]; exact hpw
+    · intro x hx; rw [hl0] at hx; cases hx
+  have hl2 := execTask_linkOK hdry flt hmem hpwt.1 hl1
+  have hfold : ts.foldl (execTask cfg flt) st0
+      = post.foldl (execTask cfg flt) (execTask cfg flt (pre.foldl (execTask cfg flt) st0) t) := by
+    rw [hts, List.foldl_append, List.foldl_cons]
+  rw [hfold]
+  -- the local fact, right after the task
+  have loc : ∃ x, (execTask cfg flt (pre.foldl (execTask cfg flt) st0) t).w.linkMap.find? (·.1 == m.ino) = some x ∧
+      (execTask cfg flt (pre.foldl (execTask cfg flt) st0) t).w.dst.get? t.rel
+        = (execTask cfg flt (pre.foldl (execTask cfg flt) st0) t).w.dst.get? x.2.1 ∧
+      (execTask cfg flt (pre.foldl (execTask cfg flt) st0) t).w.dst.get? t.rel ≠ none := by
+    obtain ⟨_, w', hp, he⟩ := execTask_ok_of_errors hok
+    rw [he]
+    rw [perform_cu hs hnd hdry] at hp
+    have hact : t.act = .create ∨ t.act = .update := by
+      cases ha : t.act with
+      | create => exact Or.inl rfl
+      | update => exact Or.inr rfl
+      | skip => exact absurd ha hs
+      | delete => exact absurd ha hnd
+    rcases performCU_file hpl hp with ⟨node, hget, _, _, ⟨_, hno⟩ | ⟨⟨i, hl⟩, _, _, _⟩⟩ | ⟨x, fm, _, _, hfind, hx, _, hfirst, hget, hl, _⟩
+    · exact absurd ⟨hhl, hn⟩ (hno hact)
+    · refine ⟨(m.ino, t.rel, i), ?_, rfl, by rw [hget]; simp⟩
+      simp only; rw [hl, List.find?_cons]; simp
+    · refine ⟨x, by simp only; rw [hl]; exact hfind, ?_, by rw [hget]; simp⟩
+      by_cases hxt : x.2.1 = t.rel
+      · rw [hxt]
+      · rcases (performCU_frame hp).1 x.2.1 hxt with h | ⟨h, _⟩
+        · simp only; rw [hget, h, hfirst]
+        · rw [hfirst] at h; cases h
+  obtain ⟨x, hf, heq, hpres⟩ := loc
+  have hxmem : x ∈ (execTask cfg flt (pre.foldl (execTask cfg flt) st0) t).w.linkMap :=
+    List.mem_of_find?_eq_some hf
+  have hx2 := (hl2 x hxmem).2
+  exact ⟨x, foldl_share cfg flt post _ t.rel m.ino x hf heq hpres (fun b hb => ⟨hpost b hb, hx2 b hb⟩)⟩
 
 /-! ### which tasks completed -/
 
@@ -573,5 +698,32 @@ theorem runF_eq_run_of_exit_zero {cfg : Cfg} {flt : Faults} {scan : List SEntry}
   unfold finalExec at hfold
   unfold run runF
   simp only [hfold]
+
+/-- **`-H`: all transferred members of one source inode are names of one destination node** -/
+theorem run_share {cfg : Cfg} (hdry : cfg.dryRun = false) (flt : Faults) (scan : List SEntry)
+    (dst : Map DNode) (n : Nat) (hu : UniqueRels scan)
+    (hdel : cfg.delete = true → ParentClosed scan ∧ dst.get? [] = none)
+    (hhl : cfg.hardlinks = true) {e e' : SEntry} {m m' : FileMeta} {k k' : Nat}
+    (hk : e.kind = .file m k) (hk' : e'.kind = .file m' k') (hn : 1 < k) (hn' : 1 < k') (hi : m.ino = m'.ino)
+    (hs : planFileAct cfg m (dst.get? e.rel) ≠ .skip) (hs' : planFileAct cfg m' (dst.get? e'.rel) ≠ .skip)
+    (hok : TaskOk cfg flt (plan cfg scan dst) (initExec dst n) (planEntry cfg dst e))
+    (hok' : TaskOk cfg flt (plan cfg scan dst) (initExec dst n) (planEntry cfg dst e')) :
+    (finalExec cfg flt scan dst n).w.dst.get? e.rel = (finalExec cfg flt scan dst n).w.dst.get? e'.rel := by
+  have hpe : planEntry cfg dst e = ⟨planFileAct cfg m (dst.get? e.rel), e.rel, .file m k⟩ := by
+    unfold planEntry; simp [hk]
+  have hpe' : planEntry cfg dst e' = ⟨planFileAct cfg m' (dst.get? e'.rel), e'.rel, .file m' k'⟩ := by
+    unfold planEntry; simp [hk']
+  obtain ⟨pre, post, hts, hok⟩ := hok
+  obtain ⟨pre', post', hts', hok'⟩ := hok'
+  have hpw := plan_pairwise cfg scan dst hu hdel
+  obtain ⟨x, hf, hx⟩ := foldl_task_share hdry flt hts hpw (initExec dst n) rfl (planEntry_act_ne_delete _ _ _)
+    (by rw [hpe]; exact hs) (by rw [hpe]) hhl hn hok
+  obtain ⟨x', hf', hx'⟩ := foldl_task_share hdry flt hts' hpw (initExec dst n) rfl (planEntry_act_ne_delete _ _ _)
+    (by rw [hpe']; exact hs') (by rw [hpe']) hhl hn' hok'
+  rw [planEntry_rel] at hx hx'
+  rw [← hi, hf] at hf'
+  cases hf'
+  unfold finalExec
+  rw [hx, hx']
 
 end SyModel.Engine
